@@ -556,7 +556,7 @@ Lemma cv_enqueue_spec : forall e st cv e' st',
 Proof.
   intros e st cv e' st' H; unfold cv_enqueue in H.
   destruct (me e) as [m|]; [|discriminate].
-  destruct (get_obj st cv) as [[| | | |ws ne| | | | |]|]; try discriminate.
+  destruct (get_obj st cv) as [[| | | |ws ne| | | | | | | | ]|]; try discriminate.
   destruct (e_block e m false) as [e1|] eqn:Hb; [|discriminate].
   inversion H; subst. exists m, ws, ne; auto.
 Qed.
@@ -582,7 +582,7 @@ Lemma cv_wake_spec : forall e st cv e' st',
 Proof.
   intros e st cv e' st' H; unfold cv_wake in H.
   destruct (me e) as [m|]; [|discriminate].
-  destruct (get_obj st cv) as [[| | | |ws ne| | | | |]|]; try discriminate.
+  destruct (get_obj st cv) as [[| | | |ws ne| | | | | | | | ]|]; try discriminate.
   exists m, ws, ne. unfold wake_kind_of.
   destruct (assoc_get ws m) as [[|[|[ep c] rest]|c]|]; try discriminate.
   - exists (WkSignal ep c). repeat split.
@@ -1604,7 +1604,7 @@ Lemma mutex_set_holder_spec : forall e st oid e' st' p,
 Proof.
   intros e st oid e' st' p H; unfold mutex_set_holder in H.
   destruct (me e) as [m|]; [|discriminate].
-  destruct (get_obj st oid) as [[| |[h|] s p0| | | | | | |]|] eqn:Hg; try discriminate.
+  destruct (get_obj st oid) as [[| |[h|] s p0| | | | | | | | | | ]|] eqn:Hg; try discriminate.
   inversion H; subst. exists m, s. repeat split. eapply get_set_obj_eq; exact Hg.
 Qed.
 
@@ -1619,7 +1619,7 @@ Proof.
   destruct (get_obj st m) as [o|] eqn:Hg; [|discriminate].
   destruct (sem_of o) as [s|] eqn:Hs; [|discriminate].
   destruct (sem_release e s 1) as [[e1 s1]|]; [|discriminate].
-  destruct o as [| |h s0 p| | | | | | |]; try discriminate.
+  destruct o as [| |h s0 p| | | | | | | | | |]; try discriminate.
   inversion H; subst. exists h, s0, p, s1. split; [reflexivity|]. split; [reflexivity|].
   split; [eapply get_set_obj_eq; exact Hg|]. intros j Hj; apply get_set_obj_neq; congruence.
 Qed.
